@@ -190,7 +190,11 @@ def trace_part(chk, S, n_examples):
             bins = [kx + 2, ky + 2] if c['binspec'] in ('mixture', 'edges') else kx + 2
             kw = dict(xscale=c['scale'], yscale=c['scale'])
         else:
-            data = np.concatenate([pts, np.zeros((N, 1))], axis=1)
+            third = np.zeros((N, 1))
+            if c['seed'] % 3 == 0:          # NaN / inf readings in a channel the gate is NOT applied to
+                third[::3, 0] = np.nan
+                third[1::5, 0] = np.inf
+            data = np.concatenate([pts, third], axis=1)
             ch = [0, 1]
             if c['kind'] == 'near-edge':
                 xe = np.linspace(99950, 100000, kx + 1)
